@@ -30,6 +30,11 @@ CLAIMED = {
    note="Trusted: the Demon-side encoder (refdemon), Go's unicode/utf16 as the meaning of UTF-16. Console text is compared only where other checks read it (sleep, pivot messages); the operator-visible copy of a new session is covered by C11's replay checks.",
    technique="TLA+ specs + exhaustive TLC; model-enumerated cases and behaviours executed on the real parser/server; TLC trace validation",
    design="DESIGN.md §5 C03"),
+ "C10": dict(
+   text="Persist.tla models every write statement of pkg/db as its own step (session insert/update, link insert/delete, listener insert/delete) inside the operations that issue them (register, metadata refresh, SMB connect of a new or known agent, disconnect, death, listener add/remove), with the running server's view, the acknowledged registrations and the in-flight operation kept apart from the three tables. Every reachable state is a crash point; the invariants state what reopening may show there (quiescent equality; acknowledged sessions survive; only known sessions; the dead stay dead; a restored parent never lists a non-restored child). TLC checks the complete state space for 3 agents. On the real server a hook after every write statement copies the database file and reopens the copy with the real DatabaseNew/AgentAll/ParentOf/LinksOf/ListenerAll: every statement of every replayed behaviour is one kill point (8.5k per quick run), metadata drawn from boundary strings (digit-only, exponent-like, padded, empty, non-ASCII) and a top-bit id. TLC validates the kill-point sequence strictly and with the monitor.",
+   note="Assumes: a process kill between two statements leaves exactly the file contents visible at that point (SQLite autocommit, page cache survives SIGKILL); kills inside one statement rely on SQLite's atomic commit. The restore loop of Start() is represented by the reader calls it makes. HTTP listener rows are C16 material; here listeners are External ones.",
+   technique="TLA+ spec with crash points + exhaustive TLC; statement-level hooks give every kill point of replayed behaviours; TLC trace validation",
+   design="DESIGN.md §5 C10"),
 }
 NOT_BUILT = "machinery not built yet (construction order in DESIGN.md §8); not claimed until its check runs clean on the unchanged tree"
 
